@@ -228,9 +228,16 @@ def random_nfa(Sigma: Set[Symbol], n: int) -> NFA:
     return NFA(Q, Sigma, delta, q0, F, epsilon)
 
 
+def _fresh_nfa_state(Q: Set[State], id_generator: IdentifierGenerator) -> State:
+    q = State(id_generator.generate('q'))
+    while q in Q:
+        q = State(id_generator.generate('q'))
+    return q
+
+
 def nfa_repetition(N: NFA, id_generator: IdentifierGenerator = IdentifierGenerator()) -> NFA:
     Sigma = N.Sigma
-    q0 = State(id_generator.generate('q'))
+    q0 = _fresh_nfa_state(N.Q, id_generator)
     Q = N.Q | {q0}
     F = N.F | {q0}
     delta = defaultdict(lambda: set([]))
@@ -244,7 +251,7 @@ def nfa_repetition(N: NFA, id_generator: IdentifierGenerator = IdentifierGenerat
 def nfa_union(N1: NFA, N2: NFA, id_generator: IdentifierGenerator = IdentifierGenerator()) -> NFA:
     assert N1.Q.isdisjoint(N2.Q)
     Sigma = N1.Sigma | N2.Sigma
-    q0 = State(id_generator.generate('q'))
+    q0 = _fresh_nfa_state(N1.Q | N2.Q, id_generator)
     Q = N1.Q | N2.Q | {q0}
     F = N1.F | N2.F
     delta = defaultdict(lambda: set([]))
